@@ -207,13 +207,17 @@ func c18paths(c *Ctx) {
 				p = k + gen.Pick(r, []string{"/mnt/Volumes/ext1/proj/main.go", "/releases/v1.2.3/cmd/x.go", "/web/node_modules/left-pad/index.go", "/a/releases/v2/Volumes/v/b.go"})
 			case 0, 1, 2, 3: // under a protected prefix
 				k := gen.Pick(r, keys)
-				p = k + "/" + gen.Pick(r, []string{"main.go", "pkg/util/x.go", "a b/c.go", "ünï/file.go", "deep/er/and/deeper/f.go", ".hidden/z.go"})
+				p = k + "/" + gen.Pick(r, []string{"main.go", "pkg/util/x.go", "a b/c.go", "ünï/file.go", "deep/er/and/deeper/f.go", ".hidden/z.go",
+					// entries whose names START with two dots (the ..data / ..<timestamp> directories of projected volumes, ..tmp of editors)
+					"..data/app/main.go", "...tmp/main.go", "..2024_05_01_12_00_00.123456789/hook.go", "..data"})
 			case 4: // the prefix itself
 				p = gen.Pick(r, keys)
 			case 5: // near miss
 				p = gen.Pick(r, keys) + "x/main.go"
 			case 6: // regexp territory
-				p = gen.Pick(r, []string{"/mnt/vol12/src/a.go", "/net/fs/export/proj/b.go", "/Users/bob/code/c.go", "/Volumes/Work/repo/d.go", "/Volumes/", "/Volumes/x"})
+				p = gen.Pick(r, []string{"/mnt/vol12/src/a.go", "/net/fs/export/proj/b.go", "/Users/bob/code/c.go", "/Volumes/Work/repo/d.go", "/Volumes/", "/Volumes/x",
+					// paths that SEVERAL rules match (an anchored directory rule and one or two rules for segments further down)
+					"/mnt/vol3/web/node_modules/left-pad/i.go", "/Users/bob/releases/v1.2/x.go", "/net/fs/export/releases/v2.0/node_modules/y.go", "/mnt/vol1/releases/v3/z.go"})
 			case 7: // outside everything
 				p = gen.Pick(r, []string{"/usr/lib/go/src/fmt/print.go", "/etc/hosts", "/", "/a", "/usr/../usr/lib/x.go", "/usr/lib/", "//double//slash.go"})
 			case 8: // relative and odd
